@@ -431,6 +431,11 @@ def check_hash_plugins(ctx: Ctx, rep: Report) -> None:
         ret_names = [n.value.id for n in own_nodes(maker.node) if isinstance(n, ast.Return) and isinstance(n.value, ast.Name)]
         closure = next((f for f in inner if f.name in ret_names), None)
         if closure is None:
+            from .common import bound_method_as_closure
+
+            for r_ in [n for n in own_nodes(maker.node) if isinstance(n, ast.Return) and n.value is not None]:
+                closure = closure or bound_method_as_closure(ctx, maker, r_.value)
+        if closure is None:
             rep.undecided("C09-R3", site, "factory returns a nested function", "not recognised")
             continue
         check_compare(ctx, rep, closure)
